@@ -304,7 +304,27 @@ func ruleEndianProbe(c *Check, rule string) {
 		return
 	}
 	nTrue, nFalse, bad := 0, 0, 0
+	// the values assigned: constants stored directly, or what a probing helper
+	// of the package returns
+	type site struct {
+		Val ssa.Value
+		at  ssa.Instruction
+	}
+	var sites []site
 	for _, st := range stores {
+		if call, ok := st.Val.(*ssa.Call); ok {
+			if callee := call.Common().StaticCallee(); callee != nil && callee.Blocks != nil && strings.HasPrefix(fnPkgPath(callee), modPath) {
+				for _, b := range callee.Blocks {
+					if ret, ok := b.Instrs[len(b.Instrs)-1].(*ssa.Return); ok && len(ret.Results) == 1 {
+						sites = append(sites, site{ret.Results[0], ret})
+					}
+				}
+				continue
+			}
+		}
+		sites = append(sites, site{st.Val, st})
+	}
+	for _, st := range sites {
 		k, ok := st.Val.(*ssa.Const)
 		if !ok || k.Value == nil || k.Value.Kind() != constant.Bool {
 			// computed value: must be the probe comparison itself
@@ -314,13 +334,13 @@ func ruleEndianProbe(c *Check, rule string) {
 				continue
 			}
 			bad++
-			c.Bad(rule, "lmdbenv/strategy.isLittleEndian/probe", "isLittleEndian is assigned a value that is not recognisably 'the probe shows the low byte first'", c.P.InstrPos(st), nil)
+			c.Bad(rule, "lmdbenv/strategy.isLittleEndian/probe", "isLittleEndian is assigned a value that is not recognisably 'the probe shows the low byte first'", c.P.InstrPos(st.at), nil)
 			continue
 		}
 		val := constant.BoolVal(k.Value)
 		// the condition this store is under
 		pat := ""
-		b := st.Block()
+		b := st.at.Block()
 		child := b
 		for d := b.Idom(); d != nil && pat == ""; child, d = d, d.Idom() {
 			iff, ok := d.Instrs[len(d.Instrs)-1].(*ssa.If)
@@ -342,10 +362,10 @@ func ruleEndianProbe(c *Check, rule string) {
 		switch {
 		case pat == "":
 			bad++
-			c.Bad(rule, "lmdbenv/strategy.isLittleEndian/probe", fmt.Sprintf("isLittleEndian = %v is not under a recognisable byte-order test", val), c.P.InstrPos(st), nil)
+			c.Bad(rule, "lmdbenv/strategy.isLittleEndian/probe", fmt.Sprintf("isLittleEndian = %v is not under a recognisable byte-order test", val), c.P.InstrPos(st.at), nil)
 		case val != (pat == "little"):
 			bad++
-			c.Bad(rule, "lmdbenv/strategy.isLittleEndian/probe", fmt.Sprintf("isLittleEndian = %v is stored where the probe shows a %s-endian layout: on a little-endian host MDB_INTEGERKEY DBIs are then walked in byte order while LMDB orders them as integers (valid input is rejected as unsorted, unsorted input accepted, entries paired with the wrong stored key)", val, pat), c.P.InstrPos(st), nil)
+			c.Bad(rule, "lmdbenv/strategy.isLittleEndian/probe", fmt.Sprintf("isLittleEndian = %v is stored where the probe shows a %s-endian layout: on a little-endian host MDB_INTEGERKEY DBIs are then walked in byte order while LMDB orders them as integers (valid input is rejected as unsorted, unsorted input accepted, entries paired with the wrong stored key)", val, pat), c.P.InstrPos(st.at), nil)
 		case val:
 			nTrue++
 		default:
@@ -444,6 +464,30 @@ func endianPattern(cond ssa.Value) string {
 				return k, true
 			}
 		}
+		// binary.NativeEndian.PutUintN(array[:], K)
+		for _, r := range *rs {
+			sl, ok := r.(*ssa.Slice)
+			if !ok || sl.Referrers() == nil {
+				continue
+			}
+			for _, r2 := range *sl.Referrers() {
+				call, ok := r2.(*ssa.Call)
+				if !ok {
+					continue
+				}
+				callee := call.Common().StaticCallee()
+				if callee == nil || !strings.Contains(callee.String(), "encoding/binary") || !strings.HasPrefix(callee.Name(), "PutUint") {
+					continue
+				}
+				args := call.Common().Args
+				if !fromNativeEndian(args[0]) && !strings.Contains(callee.String(), "nativeEndian") {
+					continue
+				}
+				if k, ok := args[len(args)-1].(*ssa.Const); ok && k.Value != nil {
+					return k.Int64(), true
+				}
+			}
+		}
 		return 0, false
 	}
 	classify := func(bytes []int64, k int64) string {
@@ -484,10 +528,35 @@ func endianPattern(cond ssa.Value) string {
 			continue
 		}
 		callee := call.Common().StaticCallee()
-		if callee == nil || !strings.Contains(callee.String(), "nativeEndian") || !strings.HasPrefix(callee.Name(), "Uint") {
+		if callee == nil || !strings.Contains(callee.String(), "encoding/binary") || !strings.HasPrefix(callee.Name(), "Uint") {
 			continue
 		}
 		args := call.Common().Args
+		// the receiver must be binary.NativeEndian (which the type checker has
+		// already resolved to the host's byte order), not a fixed order
+		native := false
+		var from func(v ssa.Value, d int)
+		from = func(v ssa.Value, d int) {
+			if d > 4 {
+				return
+			}
+			switch x := v.(type) {
+			case *ssa.Global:
+				if x.Name() == "NativeEndian" {
+					native = true
+				}
+			case *ssa.UnOp:
+				from(x.X, d+1)
+			case *ssa.Field:
+				from(x.X, d+1)
+			case *ssa.FieldAddr:
+				from(x.X, d+1)
+			}
+		}
+		from(args[0], 0)
+		if !native && !strings.Contains(callee.String(), "nativeEndian") {
+			continue
+		}
 		sl, ok := args[len(args)-1].(*ssa.Slice)
 		if !ok {
 			continue
@@ -505,3 +574,22 @@ func endianPattern(cond ssa.Value) string {
 }
 
 var _ = sort.Strings
+
+// fromNativeEndian: does the receiver value derive from binary.NativeEndian?
+func fromNativeEndian(v ssa.Value) bool {
+	for d := 0; d < 5; d++ {
+		switch x := v.(type) {
+		case *ssa.Global:
+			return x.Name() == "NativeEndian"
+		case *ssa.UnOp:
+			v = x.X
+		case *ssa.Field:
+			v = x.X
+		case *ssa.FieldAddr:
+			v = x.X
+		default:
+			return false
+		}
+	}
+	return false
+}
